@@ -2,7 +2,7 @@
 """C19 static checker for the Python interceptor (stdlib `ast` only; nothing of the
 interceptor is imported or executed). Decides structural necessary conditions of the
 fail-safe / traffic-filter property on the CURRENT source under /repo."""
-import ast, ipaddress, json, os, sys, time
+import ast, ipaddress, json, os, re, sys, time
 
 REPO = os.environ.get("LUNAR_REPO", "/repo")
 VERIF = os.path.dirname(os.path.dirname(os.path.abspath(__file__)))
@@ -520,6 +520,16 @@ def _atom(test, pol):
     return src(test), pol
 
 
+# a condition on a variable that was assigned in between is a different condition: atoms that
+# mention an assigned name carry the number of assignments seen so far on the way
+_VERS = {}
+
+
+def _tag(atom):
+    tags = [f"{n}#{k}" for n, k in sorted(_VERS.items()) if k and re.search(r"(?<![\w.])" + re.escape(n) + r"(?![\w])", atom)]
+    return atom + (" @" + ",".join(tags) if tags else "")
+
+
 def _product(xs, ys):
     out = []
     for x in xs:
@@ -552,7 +562,7 @@ def cond_dnf(test, pol=True):
             return out
         return [c for p_ in parts for c in p_]
     a, p_ = _atom(test, pol)
-    return [frozenset([(a, p_)])]
+    return [frozenset([(_tag(a), p_)])]
 
 
 def _is_boolean_expr(e):
@@ -576,9 +586,15 @@ def decision_table(fn):
     def walk(stmts, conds):
         for st in stmts:
             if isinstance(st, ast.If):
-                a = walk(st.body, _product(conds, cond_dnf(st.test, True)))
-                neg = _product(conds, cond_dnf(st.test, False))
+                pos, neg = _product(conds, cond_dnf(st.test, True)), _product(conds, cond_dnf(st.test, False))
+                v0 = dict(_VERS)
+                a = walk(st.body, pos)
+                v1 = dict(_VERS)
+                _VERS.clear()
+                _VERS.update(v0)
                 b = walk(st.orelse, neg) if st.orelse else neg
+                for n, k in v1.items():
+                    _VERS[n] = max(_VERS.get(n, 0), k)
                 if a is None and b is None:
                     return None
                 if a is None:
@@ -612,8 +628,14 @@ def decision_table(fn):
             if is_log(st) or isinstance(st, ast.Pass):
                 continue
             emit(f"DO {src(st)}", conds)
+            if isinstance(st, (ast.Assign, ast.AugAssign, ast.AnnAssign)):
+                tgts = st.targets if isinstance(st, ast.Assign) else [st.target]
+                for t in tgts:
+                    for n in (t.elts if isinstance(t, (ast.Tuple, ast.List)) else [t]):
+                        _VERS[src(n)] = _VERS.get(src(n), 0) + 1
         return conds
 
+    _VERS.clear()
     end = walk(fn.body, [frozenset()])
     if end is not None:
         emit("RET None", end)
